@@ -210,6 +210,24 @@ class Weaver:
         # D3
         for v in it["vis"]:
             ed.replace(v[0], v[1], "pub", "D3")
+        # D1b: a `for` loop over a shared-borrow iterator (`x.iter()` / `.keys()` / `.values()`) whose body consists solely of dropped
+        # tracing macros is dropped as a whole: logging only
+        for lp in it.get("loops", []):
+            if lp.get("kind") != "for":
+                continue
+            ex = src[lp["expr"][0]:lp["expr"][1]].decode("utf-8")
+            if not re.fullmatch(r"[\w\.]+\.(iter|keys|values)\(\)", "".join(ex.split())):
+                continue
+            bo, bc = lp["body_open"] + 1, lp["body_close"] - 1
+            inner = src[bo:bc].decode("utf-8")
+            rest = inner
+            for m in sorted([m for m in it.get("macros", []) if bo <= m["span"][0] and m["span"][1] <= bc and m["name"] in TRACE_MACROS and not m["has_mut_borrow"]],
+                            key=lambda m: -m["span"][0]):
+                a, b = m["span"][0] - bo, m["span"][1] - bo
+                rest = rest[:a] + rest[b:]
+            rest = re.sub(r"//[^\n]*", "", rest)
+            if rest.strip(" \t\n;") == "":
+                ed.replace(lp["span"][0], lp["span"][1], "", "D1b")
         # D1 / R1: macros
         keep_macros = set(spec.get("keep_macros", []))
         for m in it.get("macros", []):
